@@ -80,14 +80,14 @@ PROPS = {
              'corresponding condition; padding marker used only when positive; _Padder decomposes 1..7; flag and '
              'discriminator widths; partition splits where the model treats a member as dynamic; part numbering agrees.',
              'actual offsetof/sizeof values of generated headers',
-             'gap-obligation enumeration vs generator templates, marker guards, clang static_assert witness'),
+             'gap-obligation enumeration vs generator templates, marker guards, clang static_assert witness', claimed=True),
     'C09': P('Raw C++ swap converts in place',
              'prophy::swap(uint16/32/64) reverse all byte lanes (abstract interpretation over lanes), signed/float '
              'overloads delegate to the same width; swap_n_fixed/dynamic loop shapes; generated swap converts a '
              'discriminator/flag/counter before using it; every member class yields exactly one swap statement with '
              'dynamic/fixed mode chosen by element kind; cast targets are what follows in the wire layout; part numbering agrees.',
              'pointer walk over actual values; no byte outside the message changes',
-             'byte-lane abstract interpretation on clang AST, generator ladder and template ordering rules'),
+             'byte-lane abstract interpretation on clang AST, generator ladder and template ordering rules', claimed=True),
     'C10': P('Python message API keeps states valid',
              'Every store into _fields / mutation of _values on a public path stores a checked value, a fresh T() or None '
              'under the optional setter; every growing mutator has a dominating limit guard whose truth set over a '
